@@ -215,7 +215,8 @@ func (rt *runtime) convertNumeric(v Value, t reflect.Type) reflect.Value {
 	val := reflect.ValueOf(v.export())
 
 	if val.Kind() == t.Kind() {
-		return val
+		// Same kind, but t may be a named type (time.Duration, type MyInt int).
+		return val.Convert(t)
 	}
 
 	if val.Kind() == reflect.Interface {
@@ -234,7 +235,15 @@ func (rt *runtime) convertNumeric(v Value, t reflect.Type) reflect.Value {
 			}
 
 			return val.Convert(t)
-		case reflect.Int, reflect.Int8, reflect.Int16, reflect.Int32, reflect.Int64, reflect.Uint, reflect.Uint8, reflect.Uint16, reflect.Uint32, reflect.Uint64:
+		case reflect.Uint, reflect.Uint8, reflect.Uint16, reflect.Uint32, reflect.Uint64:
+			if f64 >= 1<<63 && f64 < 1<<64 {
+				// In uint64 range but not in int64 range (every double this
+				// large is an integer): take the unsigned route below.
+				val = reflect.ValueOf(uint64(f64))
+				break
+			}
+			fallthrough
+		case reflect.Int, reflect.Int8, reflect.Int16, reflect.Int32, reflect.Int64:
 			i64 := int64(f64)
 			if float64(i64) != f64 {
 				panic(rt.panicRangeError(fmt.Sprintf("converting %v to %v would cause loss of precision", val.Type(), t)))
